@@ -845,7 +845,17 @@ impl LdapConnAsync {
                 },
                 resp = self.stream.next() => {
                     let (id, (tag, controls)) = match resp {
-                        None => break,
+                        None => {
+                            if let LoopMode::SingleOp = mode {
+                                // The caller keeps the connection (and the reply senders in it)
+                                // if we return Ok, so the pending operation would never complete.
+                                return Err(LdapError::from(io::Error::new(
+                                    io::ErrorKind::UnexpectedEof,
+                                    "connection closed",
+                                )));
+                            }
+                            break;
+                        }
                         Some(Err(e)) => {
                             warn!("socket receive error: {}", e);
                             return Err(LdapError::from(e));
